@@ -7,9 +7,23 @@ def _translate(ctx):
     sp.loader.exec_module(m)
     return m.run(("color", "catalogue", "hash", "c17model", "c17proofs", "c17thms"))
 
+def _theorems():
+    """property theorems of Props/C19.lean and Props/C19Asserts.lean (the latter imports the former)"""
+    import re as _re
+    here = _os.path.dirname(_os.path.dirname(_os.path.abspath(__file__)))
+    names = []
+    for f in ("C19.lean", "C19Asserts.lean"):
+        src = open(_os.path.join(here, "lean", "HvPart", "HvPart", "Props", f)).read()
+        src = _re.sub(r"/-.*?-/", "", src, flags=_re.S)
+        for m in _re.finditer(r"^theorem\s+([^\s:({\[]+)", src, _re.M):
+            if not m.group(1).startswith("aux_"):
+                names.append("HvPart." + m.group(1))
+    return names
+
 SPEC = dict(
     id="C19",
-    lean_project="HvPart", props_module="HvPart.Props.C19", driver="hvdrv_part",
+    lean_project="HvPart", props_module="HvPart.Props.C19Asserts", driver="hvdrv_part",
+    theorems=_theorems(),
     harness="hv_part", bin="hv_part", mode="c19",
     cases={"quick": 2500, "thorough": 60000},
     translate=_translate,
@@ -23,9 +37,10 @@ SPEC = dict(
                 "find_subgraph_unionfind builds all_preds) has a cycle (partition_rejects_iff_cycle / partition_err_iff_cycle); the reported cycle "
                 "is a closed walk of that graph (partition_reported_cycle_is_real); every accepted graph is acyclic; the conflicted-reference "
                 "assert fires only on a self-dependency. 'Every acyclic graph is accepted' is proved in partial form "
-                "(acyclic_not_rejected_partial: no cycle error, no reference assert, SubgraphMerge::new succeeds - new_accepts_enemy_pairs; that "
-                "the later defensive asserts of try_merge / make_subgraphs never fire needs the SubgraphMerge order invariant, C17, and is covered "
-                "here by correspondence; AcyclicAcceptedStatement stays a def). Finding F19 (`d = defer_tick(); d -> d;` made SubgraphMerge::new "
+                "(acyclic_not_rejected_partial: no cycle error, no reference assert, SubgraphMerge::new succeeds - new_accepts_enemy_pairs; "
+                "handoff_edges_assert_never_fires: the assert!(handoff_edges.remove(..)) of the merge loop cannot fire; that the remaining "
+                "defensive asserts - try_merge's re-toposort expect, make_loops_contiguous' expect, the final validate_topo_sort - never fire "
+                "needs the SubgraphMerge order invariant, C17, and is covered here by correspondence; AcyclicAcceptedStatement stays a def). Finding F19 (`d = defer_tick(); d -> d;` made SubgraphMerge::new "
                 "panic on the enemy pair (d, d)) is FIXED in /repo; the witness is accepted (delayed_self_edge_accepted). Loop-ingress edges are "
                 "added for every same-tick dependency (pipes, references, access order) into a loop block since the fix of F18; a program whose "
                 "only cycle goes through such a block-contiguity edge is rejected (the F9 reading: a loop block runs as one unit). "
